@@ -134,6 +134,13 @@ def eq_laws(x, y, acc, what):
         if not isinstance(v, bool):
             out.append(({'law': 'eq-returns-non-bool', 'what': what, 'value': repr(v)}, {}))
             break
+    # `!=` is the other face of the same relation
+    try:
+        na = (x != y)
+        if bool(na) == bool(a):
+            out.append(({'law': 'ne-disagrees-with-eq', 'what': what}, {'x==y': repr(a), 'x!=y': repr(na)}))
+    except Exception as e:
+        out.append(({'law': 'eq-raises', 'what': what + ' (!=)', 'etype': type(e).__name__}, {'error': str(e)[:200]}))
     return out
 
 
@@ -200,6 +207,17 @@ def run_shard(ctx):
                                 break
                     acc.count('mutated_copies_compared')
                     fails += eq_laws(A, M, acc, 'tree-vs-mutated-copy')
+                    # the same two trees held by two steps, and those steps held by two plans: equal only if they print the same
+                    if which == 0 and A.to_string() != M.to_string():
+                        from mindsdb_sql.planner.steps import FetchDataframeStep, SubSelectStep
+                        for mk in (lambda q: FetchDataframeStep(integration='int1', query=q), lambda q: SubSelectStep(q, Result(0))):
+                            s1, s2 = mk(A), mk(M)
+                            acc.count('step_pairs_holding_different_trees')
+                            fails += eq_laws(s1, s2, acc, 'steps-holding-different-trees')
+                            if (s1 == s2) is True:
+                                fails.append(({'law': 'equal-steps-print-differently', 'changed': attr, 'step': type(s1).__name__}, {'a': A.to_string()[:200], 'b': M.to_string()[:200]}))
+                            if (QueryPlan(steps=[s1]) == QueryPlan(steps=[s2])) is True:
+                                fails.append(({'law': 'equal-plans-print-differently', 'changed': attr, 'step': type(s1).__name__}, {'a': A.to_string()[:200], 'b': M.to_string()[:200]}))
                     if (A == M) is True and A.to_string() != M.to_string():
                         sa, sb = A.to_string(), M.to_string()
                         at = next((j for j, (x, y) in enumerate(zip(sa, sb)) if x != y), min(len(sa), len(sb)))
